@@ -404,3 +404,46 @@ def stmts(rng, g, n, depth=2):
             text = text.replace('{A}', e, 1)
         text = text.replace('{{', '{').replace('}}', '}')
         yield (f'stmt:{i}', entry, text)
+
+
+# ----------------------------------------------------------------------------- command-block subsets of upstream seeds
+def block_subsets(rng, text, lexres, max_variants=4, all_single=False):
+    """text-level variants of an accepted text in which ONE `{ c1; c2; ... }` block keeps exactly one (or two) of
+    its commands -- the minimal shapes the printer's `pure_computable` / `allow_short` / `render_commands`
+    decisions hinge on, derived from upstream's own inputs without going through the printer."""
+    if lexres.error or not lexres.toks:
+        return
+    data = text.encode('utf-8')
+    toks = lexres.toks
+    stack, blocks = [], []          # blocks: (open_tok, close_tok, [(start, end) of each command])
+    cur = []
+    for t in toks:
+        if t.kind == 'OpenBrace':
+            stack.append((t, cur))
+            cur = {'start': t.end, 'cmds': []}
+        elif t.kind == 'CloseBrace' and stack:
+            ot, outer = stack.pop()
+            if isinstance(cur, dict):
+                if cur['start'] < t.start and data[cur['start']:t.start].strip():
+                    cur['cmds'].append((cur['start'], t.start))
+                blocks.append((ot, t, cur['cmds']))
+            cur = outer
+        elif t.kind == 'Semicolon' and isinstance(cur, dict):
+            cur['cmds'].append((cur['start'], t.start))
+            cur['start'] = t.end
+    blocks = [b for b in blocks if len(b[2]) >= 2]
+    if not blocks:
+        return
+    picks = []
+    if all_single:
+        for b in blocks:
+            for c in b[2]:
+                picks.append((b, [c]))
+    else:
+        for _ in range(max_variants):
+            b = rng.choice(blocks)
+            k = 1 if rng.random() < 0.7 else 2
+            picks.append((b, sorted(rng.sample(b[2], min(k, len(b[2]))))))
+    for (ot, ct, _cmds), keep in picks:
+        inner = b'; '.join(data[s:e].strip() for s, e in keep)
+        yield (data[:ot.end] + b' ' + inner + b' ' + data[ct.start:]).decode('utf-8', 'replace')
